@@ -3,8 +3,9 @@ import Driver.Util
 namespace Driver.C15
 open Util Paging
 
-/-- pages: `;`-separated, rows `,`-separated ints, `E` = failed fetch, `-` = empty page; an optional
-    `@p` suffix gives the prefetch position (ignored by the functional model: it only moves the fetch) -/
+/-! ## `iter` op (Iter level): pages `;`-separated, rows `,`-separated ints, `E` = failed fetch,
+    `-` = empty page; an optional `@p` suffix gives the prefetch position (ignored by the functional
+    model: it only moves the fetch) -/
 def parsePage (s : String) : Option (Option (List Int)) :=
   let body := (s.splitOn "@").headD ""
   if body == "E" then some none
@@ -15,9 +16,85 @@ def parsePages (s : String) : Option (List (Option (List Int))) := (s.splitOn ";
 
 def showRows (l : List Int) : String := if l.isEmpty then "-" else ",".intercalate (l.map toString)
 
+/-- the chain built by the hook: every page but the last has a next page -/
+def chainScript : List (Option (List Int)) → List Reply
+  | [] => []
+  | [some r] => [.page r none]
+  | some r :: rest => .page r (some [1]) :: chainScript rest
+  | none :: _ => [.fail (.srv 0)]
+
 /-- expected facts about the source (checked on the AST by the harness) -/
 def astExpect : String :=
   "more-pages-guard=true copies-query=true page-state-from-response=true newqry-assignments=2 next-iter=true pos-clamp=true request-carries-state=true manual-disables-auto=true fetch-once=true async-once=true scan-switches=true scanner-switches=true"
+
+/-! ## `sess` / `sessx` op (session level):
+    `sess v<n> <consumer> <prefetch> <pagesize> <q|x|xs> <first> <script>` -/
+
+def parseRows (s : String) : Option (List Int) :=
+  if s == "-" then some [] else (s.splitOn ",").mapM (fun (x : String) => x.toInt?)
+
+def parseState (s : String) : Option (Option Bytes) :=
+  if s == "." then some none else (parseHex s).map some
+
+def parseReply (s : String) : Option Reply :=
+  if s == "Eu" then some .unprepared
+  else if s == "Ec" then some (.fail .closed)
+  else if s == "Et" then some (.fail .timeout)
+  else if s == "Ex" then some (.fail .ctx)
+  else if s.startsWith "Es" then
+    match parseHex (s.drop 2).toString with
+    | some [a, b] => some (.fail (.srv (a.toNat * 256 + b.toNat)))
+    | _ => none
+  else match s.splitOn ":" with
+    | [r, st] => do
+      let rows ← parseRows r
+      let state ← parseState st
+      pure (.page rows state)
+    | _ => none
+
+def parseScript (s : String) : Option (List Reply) := (s.splitOn ";").mapM parseReply
+
+def hex4 (n : Nat) : String := toHex [UInt8.ofNat (n / 256), UInt8.ofNat (n % 256)]
+
+def showFail : Option Fail → String
+  | none => "nil"
+  | some (.srv c) => "srv:" ++ hex4 c
+  | some .closed => "closed"
+  | some .timeout => "timeout"
+  | some .ctx => "ctx"
+  | some .exhausted => "exhausted"
+
+def showReq (ident0 : Nat) : Req → String
+  | .prepare => "P"
+  | .exec ident execute skip st ps =>
+    (if execute then (if skip then "Xs" else "X") else "Q") ++ (if ident == ident0 then "=" else "!") ++ ":" ++
+    (match st with | none => "." | some b => toHex b) ++ ":" ++
+    (match ps with | none => "." | some n => toString n)
+
+def showReqs (ident0 : Nat) (l : List Req) : String :=
+  if l.isEmpty then "-" else ",".intercalate (l.map (showReq ident0))
+
+/-- prefetch values the harness uses, as quarters: the threshold `int((1 - prefetch) * numRows)` is
+    exact for these (dyadic) -/
+def prefetchPos (pf : String) (n : Nat) : Nat :=
+  let k : Int := if pf == "0" then 0 else if pf == "0.25" then 1 else if pf == "0.5" then 2
+    else if pf == "1" then 4 else if pf == "1.5" then 6 else if pf == "-1" then -4 else 1
+  (((4 - k) * (n : Int)) / 4).toNat
+
+def sessAnswer (ver consumer pf ps kind first script : String) : String :=
+  match ps.toInt?, parseState first, parseScript script with
+  | some pageSize, some fst, some sc =>
+    if !(kind == "q" || kind == "x" || kind == "xs" || kind == "xd") then "bad-op" else
+    let manualC := consumer == "manual"
+    let q : Qry := { ident := 1, prepared := kind != "q", skipMeta := kind == "xs", pageSize := pageSize,
+                     pageState := if manualC then fst.getD [] else [], disableAutoPage := manualC }
+    let pp := prefetchPos pf
+    let o := if manualC then manual pp sc false q else run pp sc false q
+    let rows := if consumer == "slicemap" && o.err.isSome then "nil" else showRows o.rows
+    -- several nodes (`v4n2`): which node still needs a PREPARE depends on the host selection order; the harness does not log PREPAREs then
+    let reqs := if (ver.splitOn "n").length > 1 then o.reqs.filter Req.isExec else o.reqs
+    s!"rows={rows} err={showFail o.err} reqs={showReqs 1 reqs}"
+  | _, _, _ => "bad-op"
 
 def step (_ : Unit) (ws : List String) : Unit × String :=
   ((), match ws with
@@ -25,13 +102,14 @@ def step (_ : Unit) (ws : List String) : Unit × String :=
     match parsePages pages with
     | none => "bad-op"
     | some ps =>
-      let failAt := ps.findIdx? (·.isNone)
-      let rows := ps.map (fun p => p.getD [])
-      let o := iterate (script rows failAt "fetch failed") (fun _ => 0) false (ps.length + 1) none
-      let err := match o.err with | some e => e | none => "nil"
+      let q : Qry := { ident := 1, prepared := false, skipMeta := false, pageSize := 0, pageState := [], disableAutoPage := false }
+      let o := run (fun _ => 0) (chainScript ps) false q
+      let err := if o.err.isSome then "fetch failed" else "nil"
       if consumer == "slicemap" && o.err.isSome then s!"rows=nil err={err}"
       else s!"rows={showRows o.rows} err={err}"
   | ["ast", "paging"] => astExpect
+  | ["sess", ver, consumer, pf, ps, kind, first, script] => sessAnswer ver consumer pf ps kind first script
+  | ["sessx", ver, consumer, pf, ps, kind, first, script] => sessAnswer ver consumer pf ps kind first script
   | _ => "bad-op")
 
 def init : Unit := ()
